@@ -561,8 +561,9 @@ namespace GeographicLib {
       if (sig12 < 1 || m12x >= 0) {
         // Need at least 2, to handle 90 0 90 180
         if (sig12 < 3 * tiny_ ||
-            // Prevent negative s12 or m12 for short lines
-            (sig12 < tol0_ && (s12x < 0 || m12x < 0)))
+            // Prevent negative s12 or m12 for short lines (round-off in
+            // Lengths can exceed a sig12 of a few epsilon)
+            (sig12 < 8 * tol0_ && (s12x < 0 || m12x < 0)))
           sig12 = m12x = s12x = 0;
         m12x *= _b;
         s12x *= _b;
